@@ -75,6 +75,14 @@ func vksDecryptPassword(pw []byte, kind string) []byte {
 		return append([]byte{}, pw[:len(pw)-1]...)
 	case "empty":
 		return []byte{}
+	case "appendnl":
+		return append(append([]byte{}, pw...), '\n')
+	case "appendcrlf":
+		return append(append([]byte{}, pw...), '\r', '\n')
+	case "appendspace":
+		return append(append([]byte{}, pw...), ' ')
+	case "prependspace":
+		return append([]byte{' '}, pw...)
 	}
 	panic("VERIF-INFRA unknown decrypt password kind " + kind)
 }
